@@ -9,6 +9,7 @@ json-schema of the model the routes were generated from.
 
 import json
 import os
+import random
 import re
 import shutil
 import sys
@@ -171,6 +172,8 @@ def gen_model_ir(r, name, explicit_pk):
     for p in ir["params"].values():
         if p["typ"].startswith("Optional["):
             p.pop("default", None)
+    if random.Random(r.random()).random() < 0.35:
+        ir["doc"] = ""  # a model without docstring / table comment (several of them in one process start from the same nothing)
     if explicit_pk:
         # the key column stands first, in the middle or last (a fall-back to "the first column" must not be what finds it)
         k = r.choice(list(ir["params"]))
